@@ -73,6 +73,7 @@ PROFILE = gf.make_profile(
 
 VARIANTS = ["data", "data", "data", "kernels>data", "data>kernels"]
 CLAUSES = ("copyin", "copyout", "copy")
+KNOWN_BUCKET = "acc-data:copyout-partial-write"
 
 
 class Violation(Exception):
@@ -542,11 +543,14 @@ def check(prog, src, region, variant, normalised=False):
             if rec is None:
                 continue
             unwritten = len(rec["elems"]) - len(rec["written"])
-            if unwritten > 0 and static.get(name, "W") == "W":
+            if (unwritten > 0 or rec["read_unwritten"]) and \
+                    static.get(name, "W") == "W":
                 culprits.append({"array": name, "clause": "copyout",
                                  "static_first_access": "W",
                                  "elements": len(rec["elems"]),
-                                 "unwritten_elements": unwritten})
+                                 "unwritten_elements": unwritten,
+                                 "element_read_before_written":
+                                 rec["read_unwritten"]})
         facts = {"input": num + 1, "kind": vio.kind, "array": vio.array,
                  "clause_of_array": next(
                      (c for c in CLAUSES
@@ -569,7 +573,7 @@ def check(prog, src, region, variant, normalised=False):
                 report = vio2
                 facts["kind"] = vio2.kind
                 facts["array"] = vio2.array
-        bucket = "acc-data:copyout-partial-write" \
+        bucket = KNOWN_BUCKET \
             if facts["explained_by_partial_copyout"] \
             else "acc-data:" + report.kind
         failure = {"bucket": bucket, "facts": facts,
@@ -585,15 +589,16 @@ def check(prog, src, region, variant, normalised=False):
 def cls_copyout_partial_write(case):
     """The failure disappears when exactly the copyout arrays that (a) are
     written first in program order of the region and (b) have at least one
-    element NOT written by the region on the failing input are copied in as
-    well (i.e. treated as `copy`)."""
+    element that the region, on the failing input, does NOT write (or reads
+    before writing it) are copied in as well (i.e. treated as `copy`)."""
     facts = case.get("facts", {})
     culprits = facts.get("partial_copyout") or []
     if not facts.get("explained_by_partial_copyout") or not culprits:
         return False
     return all(c.get("clause") == "copyout" and
                c.get("static_first_access") == "W" and
-               c.get("unwritten_elements", 0) >= 1 for c in culprits)
+               (c.get("unwritten_elements", 0) >= 1 or
+                c.get("element_read_before_written")) for c in culprits)
 
 
 CLASSIFIERS = {
@@ -663,5 +668,12 @@ def replay(case):
     status, failure, _ = check(prog, case["module"], tuple(case["region"]),
                                case["variant"], normalised=True)
     if status == "accepted" and failure:
+        stored = case.get("bucket")
+        if failure["bucket"] == KNOWN_BUCKET and \
+                stored not in (None, KNOWN_BUCKET):
+            # the stored failure (another root cause) is gone; what is left
+            # is only the recorded copyout finding, which has its own
+            # replay file (corpus/C13/copyout_partial_write.json)
+            return None
         return f"[{failure['bucket']}] {failure['msg']}"
     return None
